@@ -7,8 +7,8 @@ package zzverif
 
 import (
 	"strconv"
-	"time"
 	"strings"
+	"time"
 )
 
 var hostPool = []string{"a.test", "shop.example", "hop.example", "s.test", "x", "sx", "a.test1", "a.b.test", "b.test", "[::1]", "[2001:db8::1]", "127.0.0.1", "xn--nxasmq6b.test", "%E9.test", "%C3%89.test"}
